@@ -475,6 +475,155 @@ def gen(repo):
                  "LazrsAppender.__init__: the FIRST LasZip record of the header is used")
         return "Definition gen_backend_uses_first_laszip : bool := true.\n"
     o.add("gen_backend_uses_first_laszip", backend_lookup)
+
+    # ------------------------------------------------------------------ the decompression selection
+    def _selection_class():
+        sys.path.insert(0, repo)
+        importlib.import_module("laspy")            # laspy first: its own `import lazrs` must not see the stand-in below
+        sel = importlib.import_module("laspy._compression.selection")
+        if not os.path.realpath(sel.__file__).startswith(os.path.realpath(repo)):
+            raise Untranslatable(f"laspy imported from {sel.__file__}, not from {repo}")
+        return sel.DecompressionSelection
+
+    def _codes(s):
+        _require(isinstance(s, str) and s.isascii(), f"name {s!r}")
+        return "[" + "; ".join(str(ord(c)) for c in s) + "]"
+
+    def selection_table():
+        """values of the running Flag class: every member (aliases included), all(), base(), the values frozen as defaults of
+        the public entry points, and to_lazrs() of every member / of all() evaluated against the documented constants of lazrs"""
+        import inspect
+        import types
+        ds = _selection_class()
+        members = [(n, int(m)) for n, m in ds.__members__.items()]
+        _require(members and all(v > 0 for _, v in members), "DecompressionSelection members")
+        lib = importlib.import_module("laspy.lib")
+        rd = importlib.import_module("laspy.lasreader")
+        dfl = []
+        for nm, fn in (("open_las", lib.open_las), ("read_las", lib.read_las), ("LasReader", rd.LasReader.__init__)):
+            p = inspect.signature(fn).parameters.get("decompression_selection")
+            _require(p is not None and p.default is not inspect.Parameter.empty and isinstance(p.default, int),
+                     f"{nm}: decompression_selection has no integer default")
+            dfl.append((nm, int(p.default)))
+        # the constants of the lazrs extension (lazrs/src/lib.rs: SELECTIVE_DECOMPRESS_*), XY_RETURNS_CHANNEL = 0 is always on
+        names = ["Z", "CLASSIFICATION", "FLAGS", "INTENSITY", "SCAN_ANGLE", "USER_DATA", "POINT_SOURCE_ID", "GPS_TIME", "RGB",
+                 "NIR", "WAVEPACKET", "ALL_EXTRA_BYTES"]
+        stub = types.ModuleType("lazrs")
+        stub.SELECTIVE_DECOMPRESS_XY_RETURNS_CHANNEL = 0
+        for i, n in enumerate(names):
+            setattr(stub, "SELECTIVE_DECOMPRESS_" + n, 1 << i)
+        stub.SELECTIVE_DECOMPRESS_ALL = 0xFFFFFFFF
+
+        class _Sel:
+            def __init__(self, value):
+                self.value = int(value)
+        stub.DecompressionSelection = _Sel
+        saved = sys.modules.get("lazrs")
+        sys.modules["lazrs"] = stub
+        try:
+            canon = [m for m in ds]                 # canonical members (what to_lazrs iterates)
+            tl = [(int(m), int(ds(int(m)).to_lazrs().value)) for _, m in ds.__members__.items()]
+            all_l = int(ds.all().to_lazrs().value)
+            base_l = int(ds.base().to_lazrs().value)
+            zero_l = int(ds(0).to_lazrs().value)
+        finally:
+            if saved is None:
+                del sys.modules["lazrs"]
+            else:
+                sys.modules["lazrs"] = saved
+        _require(len(canon) >= 1, "iterating DecompressionSelection yields nothing")
+        return ("(* laspy/_compression/selection.py: values of the running DecompressionSelection class *)\n"
+                "Definition selection_members : list (list Z * Z) := [" + "; ".join(f"({_codes(n)}, {v})" for n, v in members) + "].\n"
+                f"Definition selection_all : Z := {int(ds.all())}.\n"
+                f"Definition selection_base : Z := {int(ds.base())}.\n"
+                f"Definition selection_xy_returns_channel : Z := {int(ds.xy_returns_channel())}.\n"
+                "Definition selection_defaults : list (list Z * Z) := [" + "; ".join(f"({_codes(n)}, {v})" for n, v in dfl) + "].\n"
+                "(* (member value, value of to_lazrs() of that member alone) with SELECTIVE_DECOMPRESS_Z = 1 ... ALL_EXTRA_BYTES = 2048 *)\n"
+                "Definition selection_to_lazrs_table : list (Z * Z) := [" + "; ".join(f"({m}, {l})" for m, l in tl) + "].\n"
+                f"Definition selection_all_to_lazrs : Z := {all_l}.\n"
+                f"Definition selection_base_to_lazrs : Z := {base_l}.\n"
+                f"Definition selection_none_to_lazrs : Z := {zero_l}.\n")
+    o.add("selection_table", selection_table)
+
+    def selection_methods():
+        """skip_<x> / decompress_<x> / is_set_<x> of every member, evaluated on all() and on base()"""
+        ds = _selection_class()
+        rows = []
+        for n, m in ds.__members__.items():
+            low = n.lower()
+            for meth in ("skip_", "decompress_", "is_set_"):
+                _require(callable(getattr(ds, meth + low, None)), f"DecompressionSelection.{meth}{low} is missing")
+            a, b = ds.all(), ds.base()
+            rows.append((int(m), int(getattr(a, "skip_" + low)()), int(getattr(b, "decompress_" + low)()),
+                         1 if getattr(a, "is_set_" + low)() else 0,
+                         1 if getattr(getattr(a, "skip_" + low)(), "is_set_" + low)() else 0))
+        return ("(* (member, all().skip_<m>(), base().decompress_<m>(), all().is_set_<m>(), all().skip_<m>().is_set_<m>()) *)\n"
+                "Definition selection_method_table : list (Z * Z * Z * Z * Z) := ["
+                + "; ".join(f"({m}, {s}, {d}, {i1}, {i2})" for m, s, d, i1, i2 in rows) + "].\n")
+    o.add("selection_method_table", selection_methods)
+
+    def selection_plumbing():
+        """the selection the user passes is the one the decompressor gets: LasReader keeps it and hands it to create_reader,
+        LazrsBackend.create_reader replaces None by all() only, LazrsPointReader converts it with to_lazrs() for both variants"""
+        ini = find_func(rcls, "__init__")
+        _require("self.decompression_selection = decompression_selection" in [_norm(s) for s in _body(ini)],
+                 "LasReader.__init__: self.decompression_selection = decompression_selection")
+        for s in ast.walk(rcls):
+            if isinstance(s, (ast.Assign, ast.AugAssign)) and "self.decompression_selection" in [_norm(t) for t in getattr(s, "targets", [getattr(s, "target", None)]) if t is not None]:
+                _require(_norm(s) == "self.decompression_selection = decompression_selection",
+                         f"LasReader changes its decompression selection: {_norm(s)[:80]}")
+        clb = find_func(rcls, "_create_laz_backend")
+        calls = [n for n in ast.walk(clb) if isinstance(n, ast.Call) and _norm(n.func) == "backend.create_reader"]
+        _require(len(calls) == 1 and any(k.arg == "decompression_selection" and _norm(k.value) == "self.decompression_selection"
+                                         for k in calls[0].keywords),
+                 "LasReader._create_laz_backend: create_reader(..., decompression_selection=self.decompression_selection)")
+        cr = find_func(find_class(bmod, "LazrsBackend"), "create_reader")
+        b = _body(cr)
+        _require(len(b) >= 1 and isinstance(b[0], ast.If) and _norm(b[0].test) == "decompression_selection is None"
+                 and [_norm(s) for s in b[0].body] == ["decompression_selection = DecompressionSelection.all()"] and not b[0].orelse,
+                 "LazrsBackend.create_reader: None -> DecompressionSelection.all()")
+        for s in b[1:]:
+            _require(not any(isinstance(n, ast.Name) and n.id == "decompression_selection" and isinstance(n.ctx, ast.Store)
+                             for n in ast.walk(s)), "LazrsBackend.create_reader re-binds the selection")
+        ret = [n for n in ast.walk(cr) if isinstance(n, ast.Call) and _norm(n.func) == "LazrsPointReader"]
+        _require(len(ret) == 1 and any(k.arg == "decompression_selection" and _norm(k.value) == "decompression_selection"
+                                       for k in ret[0].keywords), "LazrsBackend.create_reader hands the selection to LazrsPointReader")
+        pr = find_func(find_class(bmod, "LazrsPointReader"), "__init__")
+        _require("selection = decompression_selection.to_lazrs()" in [_norm(s) for s in _body(pr)],
+                 "LazrsPointReader.__init__: selection = decompression_selection.to_lazrs()")
+        dcs = [n for n in ast.walk(pr) if isinstance(n, ast.Call)
+               and _norm(n.func) in ("lazrs.ParLasZipDecompressor", "lazrs.LasZipDecompressor")]
+        _require(len(dcs) == 2 and all(len(c.args) == 3 and _norm(c.args[2]) == "selection" and not c.keywords for c in dcs),
+                 "LazrsPointReader.__init__: both decompressor variants get the converted selection")
+        return "Definition gen_selection_reaches_decompressor : bool := true.\n"
+    o.add("gen_selection_reaches_decompressor", selection_plumbing)
+
+    def encoding_errors_plumbing():
+        """the encoding_errors a writer was opened with reaches every header / VLR / EVLR write, compressed or not"""
+        body = _body(winit)
+        _require("self.encoding_errors = encoding_errors" in [_norm(s) for s in body], "LasWriter.__init__ keeps encoding_errors")
+        wr = [s for s in body if "self.point_writer.write_initial_header_and_vlrs(" in _norm(s)]
+        _require(len(wr) == 1 and _norm(wr[0]) == "self.point_writer.write_initial_header_and_vlrs(self.header, self.encoding_errors)",
+                 "LasWriter.__init__: write_initial_header_and_vlrs(self.header, self.encoding_errors)")
+        for n in ast.walk(wcls):
+            if isinstance(n, ast.Call) and _norm(n.func).endswith((".write_updated_header", ".write_initial_header_and_vlrs")):
+                _require(len(n.args) == 2 and _norm(n.args[1]) == "self.encoding_errors", f"{_norm(n)[:80]}: encoding_errors not handed over")
+            if isinstance(n, ast.Call) and _norm(n.func).endswith(".write_to") and "vlr" in _norm(n.func).lower():
+                _require(any(k.arg == "encoding_errors" and _norm(k.value) == "self.encoding_errors" for k in n.keywords),
+                         f"{_norm(n)[:80]}: encoding_errors not handed over")
+        pw = parse(repo, "laspy/_pointwriter.py")
+        ip = find_class(pw, "IPointWriter")
+        upd = _body(find_func(ip, "write_updated_header"))
+        _require(any("encoding_errors=encoding_errors" in _norm(s) and "header.write_to(" in _norm(s) for s in upd),
+                 "IPointWriter.write_updated_header hands encoding_errors to header.write_to")
+        lw = find_class(bmod, "LazrsPointWriter")
+        _require(not any(isinstance(n, ast.FunctionDef) and n.name == "write_updated_header" for n in lw.body),
+                 "LazrsPointWriter overrides write_updated_header")
+        for n in ast.walk(lw):
+            if isinstance(n, ast.Call) and _norm(n.func).endswith("write_to"):
+                raise Untranslatable("LazrsPointWriter writes a header itself: " + _norm(n)[:80])
+        return "Definition gen_encoding_errors_reaches_header_writes : bool := true.\n"
+    o.add("gen_encoding_errors_reaches_header_writes", encoding_errors_plumbing)
     return o
 
 
